@@ -1,8 +1,11 @@
-\* all edges of the query-history graph, for replay on a real assembly
+\* all edges of the query-history graph, for replay on a real assembly, and both clauses (run with -continue: every edge is
+\* printed and each violated clause is reported)
 CONSTANTS MaxLevel = 5
 INIT Init
 NEXT Next
 CONSTRAINT Bound
 ACTION_CONSTRAINT Emit
 INVARIANT TypeOK
+INVARIANT AnswerIsWhatWasAsked
+INVARIANT AssemblyVolumeIsSumOfBlocks
 CHECK_DEADLOCK FALSE
